@@ -87,6 +87,7 @@ public:
     int nworkers = 16;
     double deadline_abs = 0;     // absolute now_s() deadline; 0 = none
     double hang_limit_s = 120;
+    bool one_unit_per_process = false;   // each unit runs in a fresh process (for code with process-global state)
     std::string viol_prefix;     // per-worker violation files: <prefix>.<wid>
     uint64_t max_viol_per_worker = 200;
     uint64_t my_viol = 0;
@@ -186,6 +187,7 @@ public:
                     if (u >= total_units) break;
                     work(u, 0);
                     sh->units_done.fetch_add(1);
+                    if (one_unit_per_process) break;
                 }
                 if (vf) fclose(vf);
                 fflush(nullptr);
@@ -221,7 +223,10 @@ public:
             if (w < 0) continue;
             pids[w] = -1;
             bool normal = WIFEXITED(status) && WEXITSTATUS(status) == 0;
-            if (normal) { --alive; continue; }
+            if (normal) {
+                if (one_unit_per_process && sh->next_unit.load() < total_units && !sh->capped.load()) { spawn(w, false, 0, 0); continue; }
+                --alive; continue;
+            }
             // abnormal: attribute to breadcrumb
             Crumb &c = sh->crumbs[w];
             int act = c.active.load();
